@@ -301,6 +301,30 @@ def build_ops():
             h = P.exec_row({"single": {}, "variadic": {}, "pytree": {}}, L, S0, x, None)
             out["pt"].append({"tag": tag, "bare": False, "L": L, "S": S0, "x": x, "pre": h["pre"], "args": {}, "res": h["res"],
                               "post": h["post"], "either": False})
+        # DECORATING functions that mention an annotation is not a check of anything: done inside a context, it must not
+        # bind the structure name (typecheckers probe hints at decoration time)
+        ST = {"pieces": ["T"], "dots": "none", "str": "T"}
+
+        def decorate(hint):
+            def f1(x: hint, y: int = 0) -> hint:
+                return x
+
+            def f2(x: hint):
+                return x
+
+            def f3(x: typing_Union[hint, None] = None):
+                return x
+            beartype(f1)
+            typechecked(f2)
+            jaxtyped(typechecker=beartype)(f3)
+            jaxtyped(typechecker=typechecked)(f1)
+        x = {"k": "tuple", "c": [{"k": "arr", "c": [], "keys": [], "shape": [2], "dt": "f"}] * 2, "keys": [], "shape": [], "dt": ""}
+        for tag, LL in (("decorate_in_context", L), ("decorate_in_context_int", ["int"])):
+            xx = x if LL is L else {"k": "tuple", "c": [{"k": "int", "c": [], "keys": [], "shape": [], "dt": ""}] * 2, "keys": [],
+                                    "shape": [], "dt": ""}
+            h = P.exec_row({"single": {}, "variadic": {}, "pytree": {}}, LL, ST, xx, None, mid=decorate)
+            out["pt"].append({"tag": tag, "bare": False, "L": LL, "S": ST, "x": xx, "pre": h["pre"], "args": {}, "res": h["res"],
+                              "post": h["post"], "either": False})
         buf = io.StringIO()
         with contextlib.redirect_stdout(buf):
             jaxtyping.print_bindings()
